@@ -248,7 +248,7 @@ class PipelinePatternDetector(ast.NodeVisitor):
         try:
             tree = ast.parse(self.source_code)
             self.visit(tree)
-        except SyntaxError:
+        except (SyntaxError, RecursionError, MemoryError):
             pass  # Invalid Python, return empty list
         return self.matches
 
